@@ -22,7 +22,7 @@ def build(rec, tmpdir=None):
     from PseudoNetCDF.cmaqfiles import ioapi_base
     nt, nl, nr, nc, nv = rec['nt'], rec['nl'], rec['nr'], rec['nc'], rec['nv']
     sdate, stime = STARTS[rec['start']]
-    names = ['O3', 'NO2', 'CO'][:nv]
+    names = (rec.get('names') or ['O3', 'NO2', 'CO'])[:nv]
     arrays = {}
     kind = rec['kind']
     bdy = kind == 'bdy'
@@ -52,6 +52,9 @@ def build(rec, tmpdir=None):
     if bdy:
         fa['FTYPE'] = 2
     f = ioapi_base.from_arrays(attrs={'units': 'ppmV'}, fileattrs=fa, **arrays)
+    if rec.get('longname'):
+        # descriptive long_name that differs from the variable key
+        f.variables[names[0]].long_name = 'Ozone mix ratio'.ljust(16)
     if rec.get('arrorig'):
         # origins held as numpy arrays (mutable attribute objects)
         f.XORIG = np.array([float(f.XORIG)])
